@@ -66,7 +66,21 @@ def probe_config(arg):
     c = subprocess.run(["gcc", "-no-pie", "-o", exe, os.path.join(VERIF, "harness", "vprobe.c")] + objs + rest + ["-lpthread", "-ldl"], capture_output=True, text=True)
     if c.returncode != 0:
         raise Harness("probe link failed: " + c.stderr[-800:])
-    out = subprocess.run([exe], capture_output=True, text=True, timeout=30)
+    # candidate names for the lookup functions: every name of every registry (all-on), each proper prefix, the empty name,
+    # names with a character appended and in upper case
+    ds_all_, fl_all_, ou_all_ = allf
+    cands = set([""])
+    for n in list(ds_all_) + list(fl_all_) + list(ou_all_) + ["failure", "noop"]:
+        cands.add(n)
+        cands.add(n + "x")
+        cands.add(n + "_")
+        cands.add(n.upper())
+        for i in range(1, len(n)):
+            cands.add(n[:i])
+    cands = sorted(cands)
+    with open(os.path.join(work, "cands"), "w") as f:
+        f.write("".join(c + "\n" for c in cands))
+    out = subprocess.run([exe, os.path.join(work, "cands")], capture_output=True, text=True, timeout=30)
     nm = subprocess.run(["nm", "-S", exe], capture_output=True, text=True).stdout
     addr2sym = {}
     sizes = {}
@@ -91,9 +105,14 @@ def probe_config(arg):
         "output": [n for n in ou_all if ("OUTPUT", n) not in offset] + ["noop"],
     }
     seen = {"datasource": [], "filter": [], "output": []}
+    lookups = []
     for line in out.stdout.splitlines():
         p = line.split()
         if p[0] == "counts":
+            continue
+        if p[0] == "lookup":
+            m = re.match(r"lookup (\w+) \[(.*)\] (-?\d+) (-?\d+)$", line)
+            lookups.append((m.group(1), m.group(2), int(m.group(3)), int(m.group(4))))
             continue
         kind, i, name = p[0], int(p[1]), p[2]
         addr = 0 if p[3] == "(nil)" else int(p[3], 16)
@@ -104,6 +123,14 @@ def probe_config(arg):
         if want not in syms:
             F.violation("C13:name-bound-to-wrong-implementation:%s" % kind, "%s name %r is bound to %s (expected %s) with features off: %s, thread safety %s" % (
                 kind, name, syms or hex(addr), want, ["%s:%s" % o for o in off][:6], ts), wit)
+    for kind, name, got_id, got_exists in lookups:
+        st["lookups"] = st.get("lookups", 0) + 1
+        want_id = seen[kind].index(name) if name in seen[kind] else -1
+        if got_id != want_id or bool(got_exists) != (want_id >= 0):
+            cls = "unknown-name-resolves" if want_id < 0 else "name-resolves-elsewhere"
+            F.violation("C13:lookup:%s:%s" % (cls, kind), "%s lookup of %r gives id %d (%s), exists=%d; the table has it at %d (features off: %s)" % (
+                kind, name, got_id, seen[kind][got_id] if 0 <= got_id < len(seen[kind]) else "-", got_exists, want_id, ["%s:%s" % o for o in off][:6]),
+                dict(features_off=["%s:%s" % o for o in off], thread_safety=ts, name=name))
     for kind in seen:
         if sorted(seen[kind]) != sorted(enabled[kind]):
             extra = sorted(set(seen[kind]) - set(enabled[kind]))
